@@ -1735,10 +1735,16 @@ static void compile_expr(CG *cg, ASTNode *node) {
         /* cond is an expression: evaluates to a value
          * (cond (c1 v1) (c2 v2) ... (else ve)) */
         int clause_count = node->as.cond_expr.clause_count;
-        /* We need end-patches for each clause's JMP to end */
-        uint32_t end_patches[64];
-        uint32_t end_instrs[64];
+        /* We need end-patches for each clause's JMP to end: one per clause, however many */
+        uint32_t *end_patches = malloc(sizeof(uint32_t) * (size_t)(clause_count > 0 ? clause_count : 1));
+        uint32_t *end_instrs = malloc(sizeof(uint32_t) * (size_t)(clause_count > 0 ? clause_count : 1));
         int end_count = 0;
+        if (!end_patches || !end_instrs) {
+            free(end_patches);
+            free(end_instrs);
+            cg_error(cg, node->line, "out of memory compiling cond");
+            break;
+        }
 
         for (int i = 0; i < clause_count; i++) {
             compile_expr(cg, node->as.cond_expr.conditions[i]);
@@ -1751,11 +1757,9 @@ static void compile_expr(CG *cg, ASTNode *node) {
             /* Jump to end */
             uint32_t je_instr = cg->code_size;
             uint32_t je_off = emit_op(cg, OP_JMP, (int32_t)0);
-            if (end_count < 64) {
-                end_patches[end_count] = je_off + 1;
-                end_instrs[end_count] = je_instr;
-                end_count++;
-            }
+            end_patches[end_count] = je_off + 1;
+            end_instrs[end_count] = je_instr;
+            end_count++;
 
             /* Patch JMP_FALSE to here (next clause) */
             patch_jump(cg, jf_patch, jf_instr, cg->code_size);
@@ -1772,6 +1776,8 @@ static void compile_expr(CG *cg, ASTNode *node) {
         for (int i = 0; i < end_count; i++) {
             patch_jump(cg, end_patches[i], end_instrs[i], cg->code_size);
         }
+        free(end_patches);
+        free(end_instrs);
         break;
     }
 
@@ -1958,9 +1964,15 @@ static void compile_expr(CG *cg, ASTNode *node) {
         compile_expr(cg, node->as.match_expr.expr);
 
         int arm_count = node->as.match_expr.arm_count;
-        uint32_t end_patches[64];
-        uint32_t end_instrs[64];
+        uint32_t *end_patches = malloc(sizeof(uint32_t) * (size_t)(arm_count > 0 ? arm_count : 1));
+        uint32_t *end_instrs = malloc(sizeof(uint32_t) * (size_t)(arm_count > 0 ? arm_count : 1));
         int end_count = 0;
+        if (!end_patches || !end_instrs) {
+            free(end_patches);
+            free(end_instrs);
+            cg_error(cg, node->line, "out of memory compiling match");
+            break;
+        }
 
         /* Find union definition for variant name → index mapping.
          * The typechecker may set a monomorphized name (e.g., "Result_int_string")
@@ -2023,7 +2035,7 @@ static void compile_expr(CG *cg, ASTNode *node) {
             }
 
             /* Jump to end */
-            if (end_count < 64) {
+            {
                 end_instrs[end_count] = cg->code_size;
                 uint32_t je_off = emit_op(cg, OP_JMP, (int32_t)0);
                 end_patches[end_count] = je_off + 1;
@@ -2042,6 +2054,8 @@ static void compile_expr(CG *cg, ASTNode *node) {
         for (int i = 0; i < end_count; i++) {
             patch_jump(cg, end_patches[i], end_instrs[i], cg->code_size);
         }
+        free(end_patches);
+        free(end_instrs);
         break;
     }
 
